@@ -257,10 +257,14 @@ func (t *Template) expectString(context string) string {
 // It runs to EOF.
 func (t *Template) parseTemplate(cacheAfterParsing bool) (next Node) {
 	t.Root = t.newList(t.peek().pos)
+	var leading []item // whitespace-only text seen before any extends|import clause
 	// {{ extends|import stringLiteral }}
 	for t.peek().typ != itemEOF {
 		delim := t.next()
 		if delim.typ == itemText && strings.TrimSpace(delim.val) == "" {
+			if t.extends == nil && len(t.imports) == 0 {
+				leading = append(leading, delim)
+			}
 			continue //skips empty text nodes
 		}
 		if delim.typ == itemLeftDelim {
@@ -293,6 +297,13 @@ func (t *Template) parseTemplate(cacheAfterParsing bool) (next Node) {
 		} else {
 			t.backup()
 			break
+		}
+	}
+
+	if t.extends == nil && len(t.imports) == 0 {
+		// whitespace-only text is dropped only next to extends|import clauses
+		for _, text := range leading {
+			t.Root.append(t.newText(text.pos, text.val))
 		}
 	}
 
